@@ -148,7 +148,7 @@ impl Check for C11Check {
         true
     }
     fn rule(&self) -> String {
-        "scenario = one simulated main event (forward-model event with 2-5 tracks and ADC noise; synthetic hit pattern incl. seam blocks and full ring; event with one event-builder inconsistency, notably duplicated banks whose copies differ; extreme-value event) and a schedule of trials: bank-list permutations {identity, reversal, rotations, seeded shuffles (PWB chunks scattered among other banks), adjacent transpositions - ALL of them for events of <= 40 banks, sampled otherwise} x hash keys (>= 4 distinct per event, installed through the getrandom seam on a fresh 64 MiB-stack thread per trial) x placement {twice on the same thread, another thread, after a large event and 1-2 mostly REJECTED events (any of the 35 event-builder faults, extreme packets) computed on the same thread, two other PROCESSES (child harness processes, each under its own hash key from the start), a thread whose monotonic clock jumps forward by 40 s .. 2 h on seeded reads}; each scenario exists for the release and the overflow-checked build. Oracle: every trial of one event returns the same digest = Err, or (u32 timestamp, bit patterns of t/phi/z/wire_amplitude/pad_amplitude of every avalanche in list order, bit patterns of the vertex). Non-trivial = at least 4 trials executed on an event with >= 2 banks; distinct = distinct event-log hashes (bank bytes + trial list + digest).".into()
+        "scenario = one simulated main event (forward-model event with 2-5 tracks and ADC noise; synthetic hit pattern incl. seam blocks and full ring; event with one event-builder inconsistency, notably duplicated banks whose copies differ; extreme-value event) and a schedule of trials: bank-list permutations {identity, reversal, rotations, seeded shuffles (PWB chunks scattered among other banks), adjacent transpositions - ALL of them for events of <= 40 banks, sampled otherwise} x hash keys (>= 4 distinct per event, installed through the getrandom seam on a fresh 64 MiB-stack thread per trial) x placement {twice on the same thread, another thread, after a large event and 1-2 mostly REJECTED events (any of the 36 event-builder faults, extreme packets) computed on the same thread, two other PROCESSES (child harness processes, each under its own hash key from the start), a thread whose monotonic clock jumps forward by 40 s .. 2 h on seeded reads}; each scenario exists for the release and the overflow-checked build. Oracle: every trial of one event returns the same digest = Err, or (u32 timestamp, bit patterns of t/phi/z/wire_amplitude/pad_amplitude of every avalanche in list order, bit patterns of the vertex). Non-trivial = at least 4 trials executed on an event with >= 2 banks; distinct = distinct event-log hashes (bank bytes + trial list + digest).".into()
     }
     fn assumptions(&self) -> Vec<String> {
         vec![
@@ -190,7 +190,7 @@ impl Check for C11Check {
             3 | 4 | 5 => Kind::EvFault {
                 base: BaseEvent { run: *r.pick(&[u32::MAX, u32::MAX, 11084, 9277]), seed: r.next_u64(), n_wires: *r.pick(&[1usize, 3, 9, 24, 40, 80, 256]), n_pad_msgs: r.usize(0, 4), long_only: r.chance(1, 2), pad_start: None, suppressed_only: false },
                 // duplicates (slots 3..=7) and pad faults favoured
-                slot: *r.pick(&[3usize, 4, 5, 6, 7, 9, 13, 14, 15, 16, 0, 2, 18, 100, 29, 30, 31, 29, 30, 31, 32, 33, 34, 34]),
+                slot: *r.pick(&[3usize, 4, 5, 6, 7, 9, 13, 14, 15, 16, 0, 2, 18, 100, 29, 30, 31, 29, 30, 31, 32, 33, 34, 34, 35]),
             },
             6 => Kind::Extreme { wires: *r.pick(&[2usize, 9, 40]), wire_mode: r.below(8) as u8, wire_len: *r.pick(&[101usize, 130, 300]), pad_msgs: r.usize(0, 3), pad_mode: r.below(8) as u8, pad_req: *r.pick(&[101u16, 120, 300]), pad_channels: *r.pick(&[3usize, 20, 79]), seam: r.chance(1, 2) },
             _ => Kind::Fwd { tracks: 2, noise: 0.0, amp_scale: *r.pick(&[0.2, 3.0]) },
@@ -227,7 +227,7 @@ impl Check for C11Check {
             let kind = if rp.chance(4, 5) {
                 Kind::EvFault {
                     base: BaseEvent { run: *rp.pick(&[u32::MAX, u32::MAX, 11084, 9277]), seed: rp.next_u64(), n_wires: *rp.pick(&[1usize, 3, 9]), n_pad_msgs: rp.usize(1, 4), long_only: rp.chance(1, 2), pad_start: None, suppressed_only: false },
-                    slot: rp.usize(0, 35),
+                    slot: rp.usize(0, 36),
                 }
             } else {
                 Kind::Extreme { wires: 2, wire_mode: rp.below(8) as u8, wire_len: 130, pad_msgs: rp.usize(1, 3), pad_mode: rp.below(8) as u8, pad_req: *rp.pick(&[101u16, 300, 511]), pad_channels: *rp.pick(&[3usize, 20, 79]), seam: false }
